@@ -16,7 +16,7 @@ EPS = 2.0 ** -52
 # ---------------------------------------------------------------------------------------------
 # lattice
 # ---------------------------------------------------------------------------------------------
-R_PATTERNS = ["uniform", "graded0", "gradedR", "bisected", "irregular"]
+R_PATTERNS = ["uniform", "graded0", "gradedR", "bisected", "irregular", "alternating"]
 T_PATTERNS = ["uniform", "bisected", "irregular"]
 
 _IRR = [1.0, 0.6, 1.7, 0.8, 1.3, 0.55, 1.45, 0.9, 1.15, 0.7, 1.6, 1.05]
@@ -31,9 +31,11 @@ def make_radii(nr, R0, Rmax, pattern):
         if pattern == "gradedR":
             w = [1.0 - x for x in reversed(w)]
         r = [R0 + (Rmax - R0) * x for x in w]
-    elif pattern == "bisected" and nr % 2 == 1:
+    elif pattern in ("bisected", "alternating") and nr % 2 == 1:
         nc = (nr + 1) // 2
-        h = [_IRR[i % len(_IRR)] for i in range(nc - 1)]
+        # "alternating": coarse cells of widths 1, 3, 1, 3, ... each halved - every fine-only node sits in the middle of a cell whose two
+        # neighbour cells have EQUAL width different from its own: a symmetric but not equidistant four-point stencil
+        h = [_IRR[i % len(_IRR)] for i in range(nc - 1)] if pattern == "bisected" else [1.0 if i % 2 == 0 else 3.0 for i in range(nc - 1)]
         tot = sum(h)
         c = [R0]
         for x in h:
@@ -135,7 +137,7 @@ def lattice(nrs, nts, what, tier, min_circles=2, min_radial=3, need_odd_nr=False
                                         combos.append((rp, tp, gi, (k + gi) % 7, (k + gi) % 3, (k + gi) % 2))
                         else:
                             kk = k + off * 7
-                            combos.append((R_PATTERNS[kk % 5], T_PATTERNS[(kk // 2) % 3], kk % len(geoms),
+                            combos.append((R_PATTERNS[kk % len(R_PATTERNS)], T_PATTERNS[(kk // 2) % 3], kk % len(geoms),
                                            (kk * 3 + 1) % 7, (kk // 3) % 3, (kk // 5) % 2))
                         for (rp, tp, gi, pi, r0i, rmi) in combos:
                             geom, kappa, delta = geoms[gi]
@@ -164,13 +166,13 @@ def lattice(nrs, nts, what, tier, min_circles=2, min_radial=3, need_odd_nr=False
 
 
 FULL_BLOCK_RULE = ("thorough tier only: on the structural lattice nr {5,7,8} (C07: {7,9}) x ntheta {4,8,12} x every split class x "
-                   "interior boundary, the full product of 5 radial spacing patterns x 3 angular patterns x 7 geometries instead of the "
+                   "interior boundary, the full product of 6 radial spacing patterns x 3 angular patterns x 7 geometries instead of the "
                    "pairwise cycling of the main lattice (case ids f*)")
 
 
 def full_block(nrs, nts, what, tier, **kw):
     """thorough tiers: on a small structural lattice, the full product spacing pattern x angle pattern x geometry
-    (5 x 3 x 7) for every structural class (nr, ntheta, split class, boundary) instead of the pairwise cycling"""
+    (6 x 3 x 7) for every structural class (nr, ntheta, split class, boundary) instead of the pairwise cycling"""
     return lattice(nrs, nts, what, tier, full_product=True, id_prefix="f", **kw)
 
 
